@@ -1,7 +1,7 @@
 """C08 - collocation points lie in the declared domain, with declared counts and shapes."""
 from __future__ import annotations
 
-from . import _dg
+from . import _contracts, _dg
 from .c09 import MC_CFG, draws
 
 BOXES = [[0.0, 1.0], [-1.0, 2.0], [-3.0, -1.0], [0.1, 0.7]]
@@ -62,11 +62,13 @@ def cases(tier, seed):
 def run(tier, seed):
     mc = [dict(module="Batching", tag="MC_Batching_history", cfg=MC_CFG % (5 if tier == "quick" else 6, "ge", 9, MC_PROPS))]
     return _dg.run(
-        "C08", tier, seed, mc=mc, cfgs=cases(tier, seed),
+        "C08", tier, seed, mc=mc, cfgs=cases(tier, seed), extra_leg=_contracts.leg(("pde",), 500),
         rule="MC: every batch of every history is a window of the (permuted) store; traces: ODE/stationary/non-stationary "
              "generators x uniform/grid x 4 boxes (negative, non-unit) x keys x 3-epoch histories; grid counts n=1..N (1-D) and "
              "r^2 (2-D); construction clauses CountMismatch/StoreShape/StoredPointOutsideDomain/BorderPointOffFacet/"
-             "BorderPointLeavesFacet, event clauses BatchPointNotInStore/BatchShape/products; distinct = distinct cfg",
+             "BorderPointLeavesFacet, event clauses BatchPointNotInStore/BatchShape/products; + constructor contracts (Contracts.tla): which "
+             "(dim, nb, border batch, cartesian/paired sizes, grid n, RAR n_start) configurations are accepted and how nb / border batch "
+             "size are normalised; distinct = distinct cfg",
         assumptions=[
             "closed-box / on-facet membership of each stored float is evaluated by the projection (exact float comparison in the "
             "array's dtype); TLA+ quantifies over points, stores, histories, counts, shapes and facet order",
